@@ -81,7 +81,7 @@ type zzScripted struct {
 	*zzNode
 	fullPos  int  // call positions 0..fullPos-1 draw their error from the full pools, later ones from the small pools
 	attempts uint // the configured number of attempts
-	retried  bool // the method under test is one of the retried ones
+	retried  bool // the method under test is one of the 11 the wrapper retries (false: Import)
 	want     int
 	args     zzArgs
 
@@ -100,7 +100,6 @@ func (s *zzScripted) step(method int, a, b []byte, ttl time.Duration, token uint
 	if i > 0 {
 		rt.Assert(s.classes[i-1] == zzRetryable, "reissued-only-after-a-retryable-error")
 		rt.Assert(uint(i) < s.attempts, "never-more-calls-than-attempts")
-		rt.Assert(s.retried, "unwrapped-method-is-not-retried")
 	}
 	if i > 8 {
 		// runaway guard for broken variants of the code: stop feeding retryable errors
@@ -328,12 +327,16 @@ func zzC15() {
 			if n > 1 {
 				rt.Reach("attempts-exhausted")
 			}
-		} else {
-			rt.Reach("import-not-retried")
 		}
 	}
 	for i := 0; i < n-1; i++ {
 		rt.Assert(s.classes[i] == zzRetryable, "reissued-only-after-a-retryable-error")
+	}
+	if !s.retried {
+		// Import is not one of the methods the wrapper retries: it passes through (observed: a single call). Only the
+		// general clauses above are asserted for it, so adding retries to Import later would not be reported.
+		rt.Observe("import-calls", uint64(n))
+		rt.Reach("import-passthrough")
 	}
 	rt.ObserveBool("failed", err != nil)
 	rt.Observe("calls", uint64(n))
